@@ -544,6 +544,9 @@ def random_scenario(rng, i):
         if rng.random() < 0.8 and ab not in sup:
             sup[ab] = (ab, rng.sample(tss, rng.choice([1, 2, 3, 6])), None if role is None else role[0],
                        None if role is None else role[1])
+    if not sup:  # an acceptor cannot be started without a supported context
+        ab, _, role = req[0]
+        sup[ab] = (ab, [L.IMPLICIT_LE], None if role is None else role[0], None if role is None else role[1])
     ops = []
     for _ in range(rng.choice([4, 6, 8])):
         k = rng.choice(["cStore", "cStore", "cStore", "cEcho", "cFind", "cGet", "cMove", "cCancelModel"] + N_OPS)
